@@ -1,0 +1,7 @@
+//! Verification hooks.
+//!
+//! Thin public wrappers around crate-private items so that an external
+//! conformance harness can drive them. Nothing here changes behaviour and
+//! nothing is compiled unless `--cfg eigerco_lumina_verif` is passed.
+
+pub mod ranges;
